@@ -182,6 +182,10 @@ func body(sp spec) {
 		if sp.Consumer != "noread" && !closed1 {
 			vs.Fail("cancel-closes-channel", "context of subscription 1 cancelled but its channel was not closed at quiescence")
 		}
+		if sp.Consumer == "noread" && !vs.PeekClosed(ch1) {
+			// nobody reads it: it must be closed all the same (an undelivered message is dropped, not kept waiting)
+			vs.Fail("cancel-closes-channel", "context of subscription 1 cancelled but its (unread) channel was not closed at quiescence")
+		}
 		if closed2 {
 			vs.Fail("cancel-leaves-others", "cancelling subscription 1 closed subscription 2")
 		}
